@@ -40,7 +40,8 @@ Fixpoint unq_loop (s : str) (pb : list N) (pr : str) : str :=
   match s with
   | [] => pr
   | ch :: rest =>
-      let lit := pr ++ u_literal ch ++ unq_loop rest [] [] in
+      (* a thunk: extraction to a strict language must not evaluate it when unused *)
+      let lit (_ : unit) := pr ++ u_literal ch ++ unq_loop rest [] [] in
       if ch =? 37 then
         match rest with
         | c1 :: c2 :: r =>
@@ -59,11 +60,11 @@ Fixpoint unq_loop (s : str) (pb : list N) (pr : str) : str :=
                     | U8Invalid => raw ++ unq_loop r [] []
                     end
                 end
-            | _, _ => lit
+            | _, _ => lit tt
             end
-        | _ => lit
+        | _ => lit tt
         end
-      else lit
+      else lit tt
   end.
 
 Definition unquote_py (s : str) : str := unq_loop s [] [].
@@ -73,14 +74,14 @@ Fixpoint uc_changed (s : str) : bool :=
   match s with
   | [] => false
   | ch :: rest =>
-      let lit := ((ch =? 43) && ue_qs u && negb (ue_unsafe u 43))
+      let lit (_ : unit) := ((ch =? 43) && ue_qs u && negb (ue_unsafe u 43))
                  || (negb (ch =? 43) && ue_unsafe u ch) || uc_changed rest in
       if ch =? 37 then
         match rest with
         | c1 :: c2 :: r => true
-        | _ => lit
+        | _ => lit tt
         end
-      else lit
+      else lit tt
   end.
 
 Definition unquote_c (s : str) : str := if uc_changed s then unq_loop s [] [] else s.
